@@ -339,24 +339,31 @@ class C20(Check):
             'discovered from the candidate files, or (a) an output file was produced and compared byte for byte')
     technique = ('differential execution CLI vs library under a shared numpy seed; stateless choice-point '
                  'exploration (mcx.explore, prefix replay, deviation bound) of the iteration order of both file '
-                 'sets injected as gaddlemaps._cli.set, exhaustive permutation of the listing order with the '
-                 'real sets recorded, ground-truth oracle on every execution, fresh-interpreter hash-seed cross-check')
+                 'sets injected as gaddlemaps._cli.set; permutation of the listing order under two set models '
+                 '(the interpreter\'s set with the order recorded, an insertion-ordered set); ground-truth oracle on '
+                 'every execution; fresh-interpreter hash-seed cross-check')
     level_text = ('the real sort_molecules/main are executed under every iteration order of the topology and '
-                  'coordinate sets within the stated bounds (all permutations of small sets; <= 2 arbitrary '
-                  'transpositions of the sorted order shared by both sets beyond), for all 8 subsets of explicit '
-                  'species and all 27 explicit/excluded combinations; the explicit pipeline is compared byte for '
-                  'byte with the library workflow on the shipped box')
+                  'coordinate sets within the stated bounds (all permutations of sets of <= 4/5 files; beyond, '
+                  '<= 2 arbitrary transpositions of the sorted order per set and <= 2 (quick) / 3 (thorough) '
+                  'deviations over both sets), for all 8 subsets of explicit species, all 27 explicit/excluded '
+                  'combinations, 14 kinds of malformed coordinate candidate, all 720 listing orders of a 6-file '
+                  'list and <= 2/3 adjacent transpositions of the 17-file list; the explicit pipeline is compared '
+                  'byte for byte with the library workflow on the shipped box')
     level_note = ('trusted: the directory generator and its ground truth, numpy seeding as the only randomness of '
                   'the python alignment engine (no compiled backend installed); orders farther than 2 '
-                  'transpositions from sorted order are covered only for sets of <= 4 (quick) / 5 (thorough) files; '
-                  'ambiguous directories (a topology loadable in both resolutions, repeated topologies) are outside '
-                  'the statement')
+                  'transpositions per set from sorted order are covered only for sets of <= 4 (quick) / 5 (thorough) '
+                  'files; ambiguous directories (a topology loadable in both resolutions, repeated topologies) and '
+                  'candidate .itp files without a [ moleculetype ] section (a force-field include makes discovery '
+                  'raise OSError for every order - deterministic, not covered by the statement) are outside')
     assumptions = ['Alignment.STEPS_FACTOR = 2 on both sides of the differential (class attribute)',
                    'CLI run in-process with patched sys.argv; numpy global seed set before each side',
                    'generated directory is unambiguous: end topologies cannot be loaded against the start system, '
                    'every end coordinate file loads with exactly one end topology',
-                   'set iteration order owned through the module global `set` of gaddlemaps._cli; listing order '
-                   'explored with the interpreter sets under PYTHONHASHSEED=0 (orders recorded)']
+                   'set iteration order owned through the module global `set` of gaddlemaps._cli; the listing order '
+                   'is explored with the interpreter sets under PYTHONHASHSEED=0 and relative file names (the '
+                   'generated directory is the working directory, so string hashes do not depend on the scratch '
+                   'path and every execution replays) and with an insertion-ordered set model',
+                   'exclusion is enumerated over species that are not given explicitly']
 
     # ------------------------------------------------------------------
     def units(self, tier, seed):
